@@ -83,7 +83,11 @@ func repoTreeHash() string {
 }
 
 func runJob(b *world.Batch, prop string, j *job, known []string, extraEnv []string, timeout time.Duration) {
-	args := []string{"-test.run=^TestSim$", "-test.timeout=0", "-rapid.nofailfile", "-rapid.shrinktime=20s"}
+	shrink := "20s"
+	if v := os.Getenv("VERIF_SHRINKTIME"); v != "" {
+		shrink = v // development aid (mass re-evaluation of seeded changes): shorter minimisation
+	}
+	args := []string{"-test.run=^TestSim$", "-test.timeout=0", "-rapid.nofailfile", "-rapid.shrinktime=" + shrink}
 	if j.plan == "" {
 		args = append(args, fmt.Sprintf("-rapid.checks=%d", j.checks), fmt.Sprintf("-rapid.seed=%d", j.rseed))
 	}
